@@ -1799,7 +1799,7 @@ func genEngineCases(seed int64, n int, mode string) []Case {
 						hasDots = true
 					}
 				}
-				if p.kind == kExpr && hasDots && g.chance(map[string]float64{"c04": 0.5, "c01": 0.3, "c03": 0.3}[g.mode]+0.1) {
+				if p.kind == kExpr && hasDots && g.chance(map[string]float64{"c04": 0.5, "c01": 0.3, "c03": 0.3, "c05": 0.4, "c02": 0.2}[g.mode]+0.1) {
 					// an instance of a pattern with elisions in which a call spreads its last argument ("f(a, xs...)") or no
 					// longer does: the "..." of a call is part of the call, not of the elided run
 					if m, ok2 := g.posOnlyCopy(strings.TrimSpace(g.instance(p, 0))); ok2 {
